@@ -553,6 +553,20 @@ class Interp(ExprMixin, CallMixin):
         return out
 
     def s_For(self, s, st, frame):
+        # `for k in (0, 1): ...` over a short display of constants is the body written out once per constant: run it
+        # that way (the loop variable keeps its constant in each round)
+        if isinstance(s.iter, (ast.Tuple, ast.List)) and 0 < len(s.iter.elts) <= 4 and not s.orelse and \
+                all(isinstance(e, ast.Constant) for e in s.iter.elts) and \
+                not any(isinstance(x, (ast.Break, ast.Continue)) for b in s.body for x in ast.walk(b)):
+            cur = st
+            for elt in s.iter.elts:
+                v = self.eval(elt, cur, frame)
+                self.bind_target(s.target, v, cur, frame)
+                cur = self.exec_block(s.body, cur, frame)
+                if cur is None or not cur.reachable:
+                    break
+            return cur
+
         def head_fn(h, quiet=False):
             mark = len(frame.events)
             it = self.eval(s.iter, h, frame)
